@@ -41,7 +41,11 @@ _ASSUME = [
     '(libm: phi of basic_intersection and the fields of DistantSource3D::new within 2^-40; a phi > phi_max decision only when the margin exceeds 1e-9 and '
     '(x,y) != (0,0); skipped cases are counted under tags 99xx); private fields of Disk3D are read through the verif_fields hook',
     'pflat: float evaluation vs exact evaluation is sampled by the exact-rational oracle (1e-9 relative x condition number; C03: relative margin 1e-6), not proved',
-    'pflat: f32 build not exercised by this part (the runner evaluates the binary64 instance only)',
+    'pflat: f32 build (C02, thorough tier): the same runner text instantiated on the binary32 instance NumF32 (module Flatf32 of Run/Flat.v: every operation of the '
+    'model followed by rounding to binary32; executed as NumF32fast, proved equal to the Flocq-rounded NumF32 in Run/FastNum32Proof.v) against the harness built with --features float; bit for bit except the libm-dependent fields (sinf / cosf / '
+    'atan2f / acosf of the platform against the binary32 rounding of the software libm: 2^-20 = 8 ulp32; phi > phi_max decisions compared when the margin exceeds 2^-16); '
+    'the C02 oracle then reads "up to rounding" as 2^-13 (1024 ulp32) instead of 1e-9, on scales that include the conditioning of the attached transform; '
+    'C03 / C13 have no f32 stream',
 ]
 ASSUMPTIONS = {'C02': _ASSUME, 'C03': _ASSUME, 'C13': _ASSUME}
 THEOREMS = {
@@ -61,14 +65,22 @@ def streams(prop, tier):
     n = STREAM[prop]
     if tier == 'quick': return [Stream(n, 1500)]
     if tier == 'search': return [Stream(n, 8000)]
-    return [Stream(n, 16000), Stream(n, 6000, release=True)]
+    out = [Stream(n, 16000), Stream(n, 6000, release=True)]
+    # the f32 build is in the quantifier of C02 only
+    if prop == 'C02': out.append(Stream(n, 1500, f32=True))
+    return out
 
 
 # ------------------------------------------------------------------------------------------------------------------
 # decoding
 # ------------------------------------------------------------------------------------------------------------------
+def is_f32(c, st=None):
+    """cases of the f32 build carry "f32": true (harness/src/flat.rs); the stream flag says the same"""
+    return bool(c.get('f32') or (st is not None and getattr(st, 'f32', False)))
+
 def dec(c, key):
-    return [f64(b) for b in c[key]]
+    fm = Fmt(is_f32(c))
+    return [fm.fl(b) for b in c[key]]
 
 OUT_LEN = {1: 6, 3: 14, 4: 4, 6: 2, 7: 2, 12: 5, 13: 14, 14: 4, 15: 14, 16: 14, 17: 4, 21: 4, 22: 14, 23: 14, 24: 4}
 RAY_OPS = set(OUT_LEN)
@@ -128,6 +140,29 @@ GAMMA3 = (EPS / 2 * 3) / (1 - EPS / 2 * 3)
 TOL = Fr(1, 10 ** 9)
 TOL2 = TOL * TOL
 M6 = Fr(1, 10 ** 6)
+F32 = False
+
+def set_precision(f32):
+    """Rebinds the rounding-related constants for the working precision of the build that produced the case.
+    f64: EPSILON = 2^-52, "up to rounding" = 1e-9 (the property's own reading: 4.5e6 ulp64 -- it silently absorbs the
+    conditioning of attached transforms).  f32: EPSILON = 2^-23 and "up to rounding" = 2^-13 = 1024 ulp32: the measured noise
+    ceiling of the C02flat f32 stream (30 000 cases, seeds 1-3: no residual above 2^-21 x scale, the first ones appear at 2^-22)
+    leaves a factor 256; because 1024 ulp cannot absorb an ill-conditioned transform the f32 scale of the on-ray test adds the
+    conditioning explicitly (|M| |M^-1| |x|, see cond_scale)."""
+    global EPS, TINY, GAMMA3, TOL, TOL2, F32
+    F32 = bool(f32)
+    EPS = Fr(1, 2 ** 23) if f32 else Fr(1, 2 ** 52)
+    TINY = 100 * EPS
+    GAMMA3 = (EPS / 2 * 3) / (1 - EPS / 2 * 3)
+    TOL = Fr(1, 2 ** 13) if f32 else Fr(1, 10 ** 9)
+    TOL2 = TOL * TOL
+
+def cond_scale(M, Minv, o, d, t):
+    """first-order magnitude of what the crate computes for a world ray (o, d) at parameter t through a transform M:
+    |M| (|M^-1| |o| + |t| |M^-1| |d|) -- the scale to which the rounding of local ray and hit point is relative"""
+    la = apt_abs(Minv, o); lb = avec_abs(Minv, d)
+    L = [a + abs(t) * b for a, b in zip(la, lb)]
+    return amax(apt_abs(M, L))
 
 def mat_of(v16): return [[Fr(v16[4 * r + k]) for k in range(4)] for r in range(4)]
 def apt(m, p): return [sum(m[r][k] * p[k] for k in range(3)) + m[r][3] for r in range(3)]
@@ -318,6 +353,8 @@ def c02_disk(d, ray, pw, local_only):
     if d.sector(x, y, tol + Fr(1, 10 ** 12) * (abs(x) + abs(y))) < 0:
         return ('C02:flat:disk:outside-sector', 'reported point is at polar angle %.9g, phi_max %.9g' % (math.atan2(float(y), float(x)) % (2 * math.pi), d.pmax_f))
     Sw = max(amax(apt_abs(d.M, pl)), amax(o), amax(pw))
+    if F32 and d.has_tr and dot(dr, dr) != 0:
+        Sw = max(Sw, cond_scale(d.M, d.Minv, o, dr, dot(sub(pw, o), dr) / dot(dr, dr)))
     return on_ray(o, dr, pw, Sw, 'C02:flat:disk')
 
 def c03_disk(d, ray, some):
@@ -361,14 +398,17 @@ def ds_cmp(dirv, d, c):
         lhs, rhs = c * c * m2, s * s
     return (lhs > rhs) - (lhs < rhs)
 
+def ds_angle(c):
+    return Fmt(is_f32(c)).fl(c['recipe'][3])
+
 def ds_legal(c):
-    a = f64(c['recipe'][3])
+    a = ds_angle(c)
     return 0.0 < a <= math.pi
 
 def c02_distant(c, prim, ray, p):
     if not ds_legal(c): return None
     dirv = V(prim[1:4]); o, d = V(ray[0:3]), V(ray[3:6])
-    ch = Fr(math.cos(f64(c['recipe'][3]) / 2))
+    ch = Fr(math.cos(ds_angle(c) / 2))
     if ds_cmp(dirv, d, ch - TOL) < 0:
         return ('C02:flat:distant:outside-cone', 'a hit is reported for a ray outside the cone: cos(angle to the source) < cos(alpha/2) - 1e-9')
     if any(math.isnan(x) for x in p): return ('C02:flat:distant:nan', 'reported point has a NaN coordinate')
@@ -380,7 +420,7 @@ def c03_distant(c, prim, ray, some):
     if not ds_legal(c): return None
     dirv = V(prim[1:4]); d = V(ray[3:6])
     if dot(d, d) == 0 or dot(dirv, dirv) == 0: return None
-    ch = Fr(math.cos(f64(c['recipe'][3]) / 2))
+    ch = Fr(math.cos(ds_angle(c) / 2))
     m = max(2 * M6 * (1 - ch), Fr(1, 10 ** 12))
     if ds_cmp(dirv, d, ch + m) > 0:
         if not some: return ('C03:flat:distant:missed-hit', 'the ray points clearly inside the cone of the source but no hit is reported')
@@ -441,6 +481,7 @@ def c13_pair(name, i1, i2, d1, d2, Ntrue):
 def oracle(prop, c, st):
     op = c['op']
     if op not in RAY_OPS or c.get('unbuildable'): return None
+    set_precision(is_f32(c, st))
     prim, rays, out = dec(c, 'prim'), dec(c, 'rays'), dec(c, 'out')
     if not allfin(prim) or not allfin(rays): return None
     res = split_out(op, out); rl = rays_of(op, rays)
@@ -488,7 +529,7 @@ def c13_one(c, op, prim, ray, info, dk):
     if op == 3: return c13_info('triangle', info, ray[3:6], true_normal(op, prim, dk), True, 1)
     if op in (15, 16): return c13_info('disk', info, ray[3:6], true_normal(op, prim, dk), dk.rigid or op == 15, 1)
     if op in (22, 23):
-        if not ds_legal(c) or f64(c['recipe'][3]) >= math.pi - 1e-6: return None
+        if not ds_legal(c) or ds_angle(c) >= math.pi - 1e-6: return None
         f = c13_info('distant', info, ray[3:6], V(prim[1:4]), True, 1)
         if f is None and info[6] != 1.0: return ('C13:flat:distant:side', 'a distant source of less than a hemisphere is always seen from the Back (normal = -direction); side = %r' % info[6])
         return f
